@@ -87,9 +87,49 @@ type CtlStep struct {
 	VErr   k8s.VErr           `json:"verr"`
 	Probe  k8s.VProbe         `json:"probe"`
 	Render []k8s.VMaster      `json:"render"`
+	Files  []string           `json:"files"` // per-resource configuration files that exist after the step
 	Hosts  map[string]string  `json:"hosts"`
 	LHosts map[string]string  `json:"lhosts"`
 	Res    []k8s.VRes         `json:"res"`
+}
+
+// recMgr is the fake NGINX manager that remembers which configuration files exist.
+type recMgr struct {
+	*nginx.FakeManager
+	conf, stream map[string]bool
+	passthrough  string
+}
+
+func newRecMgr() *recMgr {
+	return &recMgr{FakeManager: nginx.NewFakeManager("/etc/nginx"), conf: map[string]bool{}, stream: map[string]bool{}}
+}
+func (m *recMgr) CreateConfig(name string, content []byte) bool {
+	m.conf[name] = true
+	return m.FakeManager.CreateConfig(name, content)
+}
+func (m *recMgr) DeleteConfig(name string) { delete(m.conf, name); m.FakeManager.DeleteConfig(name) }
+func (m *recMgr) CreateStreamConfig(name string, content []byte) bool {
+	m.stream[name] = true
+	return m.FakeManager.CreateStreamConfig(name, content)
+}
+func (m *recMgr) DeleteStreamConfig(name string) {
+	delete(m.stream, name)
+	m.FakeManager.DeleteStreamConfig(name)
+}
+func (m *recMgr) CreateTLSPassthroughHostsConfig(content []byte) bool {
+	m.passthrough = string(content)
+	return m.FakeManager.CreateTLSPassthroughHostsConfig(content)
+}
+func (m *recMgr) files() []string {
+	out := []string{}
+	for n := range m.conf {
+		out = append(out, "conf.d/"+n)
+	}
+	for n := range m.stream {
+		out = append(out, "stream-conf.d/"+n)
+	}
+	sort.Strings(out)
+	return out
 }
 
 // LeaderObs is what the controller writes when it acquires leadership at the end of the history
@@ -947,7 +987,8 @@ func runCtl(c *Case, anns map[string]int) (err error) {
 			err = fmt.Errorf("panic: %v\n%s", r, debug.Stack())
 		}
 	}()
-	cnf, err := configs.VerifC12NewConfigurator(repoDir(), nginx.NewFakeManager("/etc/nginx"), false, false)
+	mgr := newRecMgr()
+	cnf, err := configs.VerifC12NewConfigurator(repoDir(), mgr, false, false)
 	if err != nil {
 		return err
 	}
@@ -978,7 +1019,7 @@ func runCtl(c *Case, anns map[string]int) (err error) {
 		if err != nil {
 			return err
 		}
-		c.Ctl = append(c.Ctl, CtlStep{Events: evs, Writes: writes, VErr: verr, Probe: v.LastProbe, Render: v.Mergeable(), Hosts: v.Arb.Hosts(), LHosts: v.Arb.LHosts(), Res: v.Arb.Resources()})
+		c.Ctl = append(c.Ctl, CtlStep{Events: evs, Writes: writes, VErr: verr, Probe: v.LastProbe, Render: v.Mergeable(), Files: mgr.files(), Hosts: v.Arb.Hosts(), LHosts: v.Arb.LHosts(), Res: v.Arb.Resources()})
 	}
 	c.Leader = &LeaderObs{Writes: v.Leader(), Policies: k8s.VerifPolicies}
 	return nil
